@@ -82,6 +82,56 @@ def observe(c):
     return (c.s_ready.get(), c.d_valid.get(), c.d_v.get(), c.tx.get())
 
 
+# ---------------------------------------------------------------- shards
+def _shard(n, alpha, s_bits, family, merge, max_states):
+    return {'family': family, 'n': n, 'alphabet': list(alpha), 'S_bit_periods': s_bits, 'S': s_bits * 2 * n,
+            'merge_stale_v': merge, 'max_states': max_states}
+
+
+def shards(tier):
+    out = []
+    if tier == 'quick':
+        for n in (2, 3):
+            out.append(_shard(n, Q_ALPHA, 1, 'alphabet6', False, 400000))
+        return out
+    for n in (2, 3, 4, 5, 6, 8):
+        # arbitrary sequences over the 16-value alphabet, short stalls
+        out.append(_shard(n, T_ALPHA, 1, 'alphabet16', True, 1500000))
+        # arbitrary sequences over the 6-value alphabet, stalls up to 8 bit periods
+        out.append(_shard(n, Q_ALPHA, 8, 'alphabet6_longstall', True, 2500000))
+    for b in range(256):
+        nb = ~b & 0xFF
+        if b < nb:      # {b, ~b} and {~b, b} are the same alphabet: 128 shards cover all 256 values
+            out.append(_shard(2, [b, nb], 8, 'sweep256', True, 400000))
+    return out
+
+
+def cost(d):
+    return d['n'] ** 2 * len(d['alphabet']) ** 2.5 * (1 + d['S_bit_periods'])
+
+
+BOUNDS = {
+    'quick': 'n in {2, 3} (4 and 6 system clocks per bit); all sequences over the alphabet {00, FF, 55, AA, 01, 80} with any '
+             'idle gaps incl. none; consumer stalls of at most one bit period once a byte is pending, unconstrained otherwise; '
+             '<= 2 bytes outstanding; reachable product graph closed, full state key',
+    'thorough': 'n in {2, 3, 4, 5, 6, 8}: (a) all sequences over the 16-value alphabet (single-bit bytes, 00, FF, 55, AA, 0F, F0, '
+                '7E, 81) with stalls <= 1 bit period; (b) all sequences over the 6-value quick alphabet with stalls <= 8 bit '
+                'periods; (c) at n = 2 all 256 byte values, each in the alphabet {b, ~b} (128 graphs), stalls <= 8 bit periods; '
+                'every graph closed unless reported capped; exploration continues past violating transitions (they are not '
+                'expanded) so the rest of the graph is still checked; stale deserializer v merged (see assumptions).  '
+                'Ratios n = 7 and n > 8, three or more distinct values outside the listed alphabets in one sequence, and stalls '
+                'longer than 8 bit periods are out of bound',
+}
+ASSUMPTIONS.append(
+    'thorough tier only: the deserializer v wire is dropped from the state key while d_valid = 0, the deserializer hand-off FSM is '
+    'idle (state_v = 0) and the monitor has no byte pending.  Argument: v has no reader inside the system (its only sink is the '
+    'environment, which reads it only in a valid & ready cycle); in such a state valid can only rise after the hand-off FSM leaves '
+    'idle, which happens in the same clock() call that rewrites v; so two such states differing only in v have the same futures.  '
+    'If a faulty implementation did present a stale v, the representative kept still carries one concrete stale value, and because '
+    'every merged state is extended with every alphabet byte the comparison fails for all but at most one of them.  The quick tier '
+    'uses the full key')
+
+
 # ---------------------------------------------------------------- exploration
 def make_build(d):
     n = d['n']
@@ -93,7 +143,7 @@ def make_build(d):
         c.ev = ()
         c.obs = None
         c.stats = {'accepts': 0, 'deliveries': 0, 'line_bytes': 0, 'max_outstanding': 0, 'max_stall': 0,
-                   'back_to_back_accepts': 0, 'deliver_while_next_in_flight': 0}
+                   'back_to_back_accepts': 0, 'deliver_while_next_in_flight': 0, 'accept_while_prev_undelivered': 0}
         return c
     return build
 
@@ -131,6 +181,8 @@ def step(c, x):
             st['accepts'] += 1
             if prev[0] is not None:
                 st['back_to_back_accepts'] += 1      # the byte was already on offer when ready rose: no idle gap
+            if prev[1]:
+                st['accept_while_prev_undelivered'] += 1
         elif kind == 'deliver':
             st['deliveries'] += 1
             if len(prev[2]) > 0:
@@ -144,16 +196,32 @@ def step(c, x):
     c.sim.clk(1)
 
 
-def key_fn(c, st, snap, ex):
-    wv, av = snap
-    try:
-        kw = bytes([wv[i] for i in st.key_idx])
-    except (ValueError, TypeError):
-        kw = tuple(wv[i] for i in st.key_idx)
-    return (kw, av, ex)
+def make_key_fn(d):
+    merge = d.get('merge_stale_v', False)
+    idx = {}
+
+    def key_fn(c, st, snap, ex):
+        wv, av = snap
+        if merge:
+            if not idx:
+                des = c.sys.children['des']
+                idx['v'] = st.wires.index(c.d_v)
+                idx['valid'] = st.wires.index(c.d_valid)
+                idx['state_v'] = [i for i, (l, k) in enumerate(st.slots) if l is des and k == 'state_v'][0]
+                if c.d_v.sinks:
+                    raise core.HarnessError('deserializer v has a reader inside the system; merging is not justified')
+            if wv[idx['valid']] == 0 and av[idx['state_v']] == 0 and len(ex[1]) <= len(ex[2]):
+                wv = list(wv)
+                wv[idx['v']] = 0
+        try:
+            kw = bytes([wv[i] for i in st.key_idx])
+        except (ValueError, TypeError):
+            kw = tuple(wv[i] for i in st.key_idx)
+        return (kw, av, ex)
+    return key_fn
 
 
-def explore(d, stop_on_first=True):
+def explore(d, stop_on_first=False):
     outcomes = set()
 
     def check(c, x):
@@ -167,14 +235,17 @@ def explore(d, stop_on_first=True):
     ex = core.Explorer(make_build(d), make_inputs(d), check, step=step,
                        extra_state=lambda c: c.ms, set_extra=lambda c, e: setattr(c, 'ms', e),
                        max_states=d.get('max_states', 400000), validate_every=d.get('validate_every', 997),
-                       key_fn=key_fn)
+                       key_fn=make_key_fn(d))
     ex.run(stop_on_first=stop_on_first)
     ex.outcomes = outcomes
     return ex
 
 
 def run_trace(d, trace, keep=40):
-    """Plain loop on a fresh system with the full-history monitor.  Returns (clause or None, detail, log)."""
+    """Plain loop on a fresh system, monitor with full history.  Returns (clause or None, detail, log).
+    When the first failing comparison is 'a later outstanding byte was delivered instead of the head', the run is
+    continued with the default environment (producer idle, ready = 1) for three frame times to see whether the
+    skipped head still arrives (reordered) or never does (lost)."""
     with core.quiet():
         c = make_build(d)()
     delivered, accepted, recovered = [], [], []
@@ -185,10 +256,25 @@ def run_trace(d, trace, keep=40):
         with core.quiet():
             step(c, x)
         log.append({'cycle': i, 'valid,v,ready': list(x), 's_ready,d_valid,d_v,tx': list(c.obs), 'events': [list(e) for e in c.ev]})
-        if c.viol is not None and clause is None:
+        if c.viol is not None:
             base, detail = c.viol
             clause = ref.classify(base, detail, delivered)
             detail = dict(detail, cycle=i, accepted=list(accepted), delivered=list(delivered), recovered_from_line=list(recovered))
+            if clause == 'reordered':
+                head = detail['outstanding'][0]
+                hold = c.ms[0]
+                later = []
+                for _ in range(3 * FRAME_CYCLES(d['n'])):
+                    with core.quiet():
+                        step(c, (1, hold, 1) if hold is not None else (0, 0, 1))
+                    for kind, b in c.ev:
+                        if kind == 'deliver':
+                            later.append(b)
+                        if kind == 'accept':
+                            hold = None
+                detail['delivered_afterwards(ready=1,3 frames)'] = later
+                if head not in later:
+                    clause = 'lost'
             break
         for kind, b in c.ev:
             {'accept': accepted, 'deliver': delivered, 'line': recovered}[kind].append(b)
@@ -204,33 +290,59 @@ def run_shard(d):
            'distinct_outcomes': len(ex.outcomes),
            'evaluations': st['accepts'] + st['deliveries'] + st['line_bytes'],
            'distinct_nontrivial': st['deliveries'] + st['line_bytes'],
-           'depth': ex.depth, 'stats': st, 'violations': [],
+           'depth': ex.depth, 'stats': st, 'violations': [], 'violating_transitions': len(ex.violations),
            'width_violations': [{'trace': [list(x) for x in t], 'bad': b} for t, b in ex.width_violations[:3]],
-           'samples': [{'shard': d, 'inputs': ['s_valid', 's_v', 'd_ready'], 'input_sequence_len': len(t),
-                        'input_sequence_tail': t[-12:]} for t in ex.sample_traces[-1:]]}
+           'samples': [{'shard': {k: d[k] for k in ('family', 'n', 'alphabet', 'S')}, 'inputs': ['s_valid', 's_v', 'd_ready'],
+                        'input_sequence_len': len(t), 'input_sequence_tail': t[-12:]} for t in ex.sample_traces[-1:]]}
+    if ex.width_violations:
+        raise core.HarnessError('wire value outside its width in the UART loop: %r' % (ex.width_violations[0][1],))
+    # BFS order => the first violation of each base clause is a shortest one; classify that one on a fresh system
+    seen_base, seen_sig = set(), set()
     for kind, trace, detail in ex.violations:
+        if detail['base'] in seen_base:
+            continue
+        seen_base.add(detail['base'])
         trace = [list(x) for x in trace]
         clause, det2, log = run_trace(d, trace)
         if clause is None:
             raise core.HarnessError('violation found by the explorer does not reproduce on a fresh system: %r' % (detail,))
-        res['violations'].append({'sig': 'C17:n=%d:%s' % (d['n'], clause), 'shard': d, 'trace': trace,
-                                  'detail': dict(detail, clause=clause, history=det2, last_cycles=log[-24:])})
+        sig = 'C17:n=%d:%s' % (d['n'], clause)
+        if sig in seen_sig:
+            continue
+        seen_sig.add(sig)
+        res['violations'].append({'sig': sig, 'shard': d, 'trace': trace,
+                                  'detail': dict(detail, clause=clause, trace_cycles=len(trace),
+                                                 violating_transitions_in_shard=len(ex.violations),
+                                                 history=det2, last_cycles=log[-16:])})
     if not ex.violations and not ex.capped:
         # non-vacuity of the interesting corners (harness self-check, not a verdict)
-        if st['back_to_back_accepts'] == 0 or st['max_outstanding'] < 2 or st['max_stall'] < d['S'] or st['deliveries'] == 0:
+        if (st['back_to_back_accepts'] == 0 or st['max_outstanding'] < 2 or st['max_stall'] < d['S'] or st['deliveries'] == 0
+                or st['line_bytes'] == 0):
             raise core.HarnessError('closed exploration never exercised back-to-back / 2 outstanding / full stall: %r' % (st,))
     return res
 
 
 def finish(cov, results, tier):
-    for k in ('accepts', 'deliveries', 'line_bytes', 'back_to_back_accepts', 'deliver_while_next_in_flight'):
+    for k in ('accepts', 'deliveries', 'line_bytes', 'back_to_back_accepts', 'deliver_while_next_in_flight',
+              'accept_while_prev_undelivered'):
         cov[k] = sum(r.get('stats', {}).get(k, 0) for r in results)
+    cov['violating_transitions'] = sum(r.get('violating_transitions', 0) for r in results)
     cov['max_outstanding'] = max([r.get('stats', {}).get('max_outstanding', 0) for r in results] or [0])
     cov['max_depth_cycles'] = max([r.get('depth', 0) for r in results] or [0])
     cov['states_per_shard_max'] = max([r.get('states', 0) for r in results] or [0])
     cov['byte_values_covered'] = len({b for r in results for b in r['shard']['alphabet']})
     cov['ratios_n'] = sorted({r['shard']['n'] for r in results})
-    cov['key'] = 'all wires except the 3 poked inputs + all leaf attributes + monitor state; no merging'
+    cov['stall_budgets_bit_periods'] = sorted({r['shard']['S_bit_periods'] for r in results})
+    cov['per_family'] = {}
+    for r in results:
+        f = cov['per_family'].setdefault(r['shard']['family'], {'shards': 0, 'states': 0, 'transitions': 0, 'closed': 0, 'capped': 0})
+        f['shards'] += 1
+        f['states'] += r.get('states', 0)
+        f['transitions'] += r.get('transitions', 0)
+        f['closed'] += r.get('closed_graphs', 0)
+        f['capped'] += 1 if r.get('capped') else 0
+    cov['key'] = ('all wires except the 3 poked inputs + all leaf attributes + monitor state'
+                  + ('; stale deserializer v merged while idle (see assumptions)' if tier == 'thorough' else '; no merging'))
 
 
 def replay(v):
